@@ -71,8 +71,6 @@ theorem tie_validate_basic (vbd : duallane_DLValidateBasicDecorator) (ctx : type
       match verdict03 vbd tx isEthTx el with
       | some r => r
       | none => some (next sim).2 := by
-  -- the fields of the message become variables (field order of the generated structure: alphabetical)
-  obtain ⟨asMsg, gas, feeCap, gasPrice, tipCap, R, N, ty, V, a1, a2, a3, isEth, i1, i2, i3⟩ := el
   unfold duallane_DLValidateBasicDecorator_AnteHandle verdict03 ethFeeCoins guardWith
   simp only [hre, hs, he, h0, keeper_Keeper_GetBaseFee, evmTxOf, Bool.false_eq_true, if_false, Bool.not_true]
   generalize tx.as_sdk_HasValidateBasic_ValidateBasic = vb
@@ -81,7 +79,12 @@ theorem tie_validate_basic (vbd : duallane_DLValidateBasicDecorator) (ctx : type
   generalize tx.as_protoTxProvider_GetProtoTx_AuthInfo_Fee_Payer = payer
   generalize tx.as_protoTxProvider_GetProtoTx_AuthInfo_Fee_Granter = granter
   generalize tx.as_protoTxProvider_GetProtoTx_Signatures_len = L
-  generalize asMsg vbd.ek_feeMarketKeeper_GetBaseFee = A
+  generalize hA : el.as_evmtypes_MsgEthereumTx_AsTransaction_AsMessage_vbd_new_LatestSignerForChainID_01415ad1 vbd.ek_feeMarketKeeper_GetBaseFee = A
+  simp only [hA]   -- (the occurrence on the generated side, which `generalize` does not see after `simp`)
+  generalize el.as_evmtypes_MsgEthereumTx_ValidateBasic = V
+  generalize el.as_evmtypes_MsgEthereumTx_AsTransaction_To_isNil = N
+  generalize el.as_evmtypes_MsgEthereumTx_AsTransaction_Protected = R
+  generalize el.as_evmtypes_MsgEthereumTx_AsTransaction_Gas = gas
   generalize vbd.ek_GetParams_GetEnableCreate = C
   generalize vbd.ek_GetParams_GetEnableCall = K
   cases isEthTx
